@@ -3,11 +3,14 @@ C09 — JSONPath syntax: every documented form parses as intended; printing is f
 `parseJsonPath` = literal model of jsonpath/parser.rs over the nom 7.1.3 combinator model.
 -/
 import JsonbModel.Proofs.PathFuel
+import JsonbModel.Proofs.PathRoundTrip2
+import JsonbModel.Proofs.ParserShape
 import JsonbModel.Proofs.PathRoundTrip
 import JsonbModel.Proofs.PathFindings
 
 namespace Jsonb.Props
 open Jsonb
+open PathRT2
 
 /-- for EVERY byte string the parser returns a path or an error — never a panic, never out of
 fuel; input with anything left over is an error by construction of `parseJsonPath` -/
@@ -22,5 +25,67 @@ theorem C09_print_parse_steps (fmtF64 : Nat → Bytes) (steps : List Path)
     (h : steps.all PathRT.goodStep = true) :
     parseJsonPath (printJsonPath fmtF64 (.root :: steps)) = .ok (.root :: steps) :=
   parseJsonPath_printJsonPath fmtF64 steps h
+
+/-! ### the whole documented language: filters, literals, precedence, every layout -/
+
+/-- **print → parse for filter expressions and predicates**: `$` + steps (incl. `?(…)` filter
+steps) or a single top-level predicate, built from comparisons of `$`/`@` operand paths and
+literals (null, booleans, u64, negative i64, floats the formatter prints readably, strings
+without `"` and `\`, the empty string included), `&&`, `||` in ANY nesting (the printer's
+parentheses are faithful) and `exists(…)` with nested filters — printing and parsing gives back
+the same structure -/
+theorem C09_print_parse (fmtF64 : Nat → Bytes) (jp : JsonPath) (h : goodJsonPath fmtF64 jp = true) :
+    parseJsonPath (printJsonPath fmtF64 jp) = .ok jp := parseJsonPath_printJsonPath_good fmtF64 jp h
+
+/-- **`&&` binds tighter than `||`**, on the printed text of any three good operands -/
+theorem C09_precedence (fmtF64 : Nat → Bytes) (a b c : Expr)
+    (ha : goodExpr fmtF64 true a = true) (hb : goodExpr fmtF64 true b = true) (hc : goodExpr fmtF64 true c = true) :
+    parseJsonPath (atomText fmtF64 a ++ ([32] ++ 124 :: 124 :: ([32] ++ (atomText fmtF64 b ++
+        ([32] ++ 38 :: 38 :: ([32] ++ atomText fmtF64 c))))))
+      = .ok [.predicate (.binaryOp .or a (.binaryOp .and b c))] ∧
+    parseJsonPath (atomText fmtF64 a ++ ([32] ++ 38 :: 38 :: ([32] ++ (atomText fmtF64 b ++
+        ([32] ++ 124 :: 124 :: ([32] ++ atomText fmtF64 c))))))
+      = .ok [.predicate (.binaryOp .or (.binaryOp .and a b) c)] :=
+  parseJsonPath_printed_precedence fmtF64 a b c ha hb hc
+
+/-- **any legal spacing, keyword case and quoting style**: `R kind rp e text` is the relation
+"`text` is a rendering of `e`" with an arbitrary run of space / tab / CR / LF at every place the
+grammar allows white space, `last` / `to` in any letter case, names as `.name`, `."name"`,
+`:name` or `["name"]`, escapes in quoted strings, `!=` or `<>`, signed and exponent number
+spellings; every rendering parses to the structure it renders -/
+theorem C09_every_rendering_rooted {ps : List Path} {t : Bytes}
+    (h : PathRT2.R .steps false (.paths ps) t) (w0 w1 : Bytes) (hw0 : PathRT2.Ws w0) (hw1 : PathRT2.Ws w1) :
+    parseJsonPath (w0 ++ 36 :: (t ++ w1)) = .ok (.root :: ps) :=
+  parseJsonPath_rendering_rooted h w0 w1 hw0 hw1
+theorem C09_every_rendering_predicate {e : Expr} {s : Bytes} (h : PathRT2.R .orL true e s)
+    (w0 w1 : Bytes) (hw0 : PathRT2.Ws w0) (hw1 : PathRT2.Ws w1) :
+    parseJsonPath (w0 ++ (s ++ w1)) = .ok [.predicate e] :=
+  parseJsonPath_rendering_predicate h w0 w1 hw0 hw1
+/-- a functional family of layouts (four white-space runs, keyword case, quoting style, `!=`/`<>`) -/
+theorem C09_every_style (st : PathRT2.Style) (hst : st.ok = true) (fmtF64 : Nat → Bytes)
+    (jp : JsonPath) (h : goodJsonPath fmtF64 jp = true) :
+    parseJsonPath (st.render fmtF64 jp) = .ok jp := parseJsonPath_render st hst fmtF64 jp h
+
+/-- what is accepted is well formed: indices are i32, integer literals u64 / i64, names valid
+UTF-8, the path never starts with `@`, arithmetic is never nested under a comparison -/
+theorem C09_accepted_is_wellformed (bs : Bytes) (jp : JsonPath) (h : parseJsonPath bs = .ok jp) :
+    PShape.parserShape jp = true ∧ typedPaths jp = true ∧ arithAtLeaves jp = true ∧
+      suppPaths jp = true ∧ okPaths jp = true ∧ jp.head? ≠ some .current := parseJsonPath_wellformed bs jp h
+
+/-- **known findings D22a / D22b** (print → parse fails although nothing needs quoting) -/
+theorem C09_finding_dot5e :
+    parseJsonPath [46, 34, 53, 101, 34] = .ok [.dotField [53, 101]] ∧
+    (∀ f, printJsonPath f [.dotField [53, 101]] = [46, 53, 101]) ∧
+    parseJsonPath [46, 53, 101] = .err "InvalidJsonPath" ∧
+    parseJsonPath [36, 46, 53, 101] = .ok [.root, .dotField [53, 101]] := PathRT2.Findings.dot5e
+theorem C09_finding_neg_inf :
+    parseJsonPath [36, 32, 61, 61, 32, 45, 49, 101, 57, 57, 57]
+      = .ok [.predicate (.binaryOp .eq (.paths [.root]) (.value (.num (.float 0xFFF0000000000000))))] ∧
+    parseJsonPath [36, 32, 61, 61, 32, 45, 105, 110, 102] = .err "InvalidJsonPath" ∧
+    parseJsonPath [36, 32, 61, 61, 32, 105, 110, 102]
+      = .ok [.predicate (.binaryOp .eq (.paths [.root]) (.value (.num (.float 0x7FF0000000000000))))] ∧
+    parseJsonPath [36, 32, 61, 61, 32, 78, 97, 78]
+      = .ok [.predicate (.binaryOp .eq (.paths [.root]) (.value (.num (.float 0x7FF8000000000000))))] :=
+  PathRT2.Findings.negInf
 
 end Jsonb.Props
